@@ -215,6 +215,7 @@ func (c *converter) syncFull() {
 }
 
 func (c *converter) syncPartial() {
+	c.addIngressOfChangedClasses()
 	c.trackAddedIngress()
 	trackedLinks := c.tracker.QueryLinks(c.changed.Links, true)
 
@@ -284,6 +285,55 @@ func (c *converter) syncPartial() {
 	}
 	c.partialSyncAnnotations()
 	c.syncChangedEndpoints()
+}
+
+// addIngressOfChangedClasses handles as added the ingress objects that name an
+// IngressClass that was just created, changed or removed. Such an ingress might not
+// have been converted before - e.g. the IngressClass didn't exist, or belonged to
+// another controller - so there is no tracking linking it to the IngressClass. On
+// the other hand, an ingress added in the same batch was validated against a
+// previous state of the IngressClass, so its current state is read from the cache.
+func (c *converter) addIngressOfChangedClasses() {
+	classNames := c.changed.Links[convtypes.ResourceIngressClass]
+	if len(classNames) == 0 {
+		return
+	}
+	hasChangedClass := func(ing *networking.Ingress) bool {
+		if className := ing.Spec.IngressClassName; className != nil {
+			for _, name := range classNames {
+				if name == *className {
+					return true
+				}
+			}
+		}
+		return false
+	}
+	ingList, err := c.cache.GetIngressList()
+	if err != nil {
+		c.logger.Error("error reading ingress list: %v", err)
+		return
+	}
+	added := make(map[string]bool, len(c.changed.IngressesAdd))
+	ingAdd := make([]*networking.Ingress, 0, len(c.changed.IngressesAdd))
+	for _, ing := range c.changed.IngressesAdd {
+		name := ing.Namespace + "/" + ing.Name
+		if hasChangedClass(ing) {
+			cur, err := c.cache.GetIngress(name)
+			if err != nil {
+				// removed, or does not belong to this controller anymore
+				continue
+			}
+			ing = cur
+		}
+		added[name] = true
+		ingAdd = append(ingAdd, ing)
+	}
+	for _, ing := range ingList {
+		if hasChangedClass(ing) && !added[ing.Namespace+"/"+ing.Name] {
+			ingAdd = append(ingAdd, ing)
+		}
+	}
+	c.changed.IngressesAdd = ingAdd
 }
 
 // trackAddedIngress add tracking hostnames and backends to new ingress objects
